@@ -195,7 +195,7 @@ class ScenarioInterp(Interp):
         out = {}
         obs = {}
         for k, t in self.observed.items():
-            if isinstance(t, (str, bool)) or t is None:
+            if isinstance(t, (str, bool, list)) or t is None:
                 obs[k] = t
             elif isinstance(t, int):
                 obs[k] = t
